@@ -20,7 +20,11 @@ for key, build in extremes_gen.WITNESSES.items():
         pipeline.reset_process_state()
         site = pipe_common.exc_site(res.tb, res.exc) if res.status == "internal-exception" else res.status
         site = c13_keys.refine(site, {"tb": res.tb})
-        same = key == site or key.startswith(site + ":")
+        if key.startswith("fixed:"):
+            same = res.status != "internal-exception"
+            print(f"{'repaired  ' if same else 'REGRESSED '} {key} [{acc}]: {site} {str(res.exc)[:100] if res.exc else ''}")
+        else:
+            same = key == site or key.startswith(site + ":")
+            print(f"{'reproduced' if same else 'DIFFERENT '} {key} [{acc}]: {site} {str(res.exc)[:100] if res.exc else ''}")
         bad += not same
-        print(f"{'reproduced' if same else 'DIFFERENT '} {key} [{acc}]: {site} {str(res.exc)[:100] if res.exc else ''}")
 sys.exit(1 if bad else 0)
